@@ -16,6 +16,10 @@ CHECKS = {
                 technique="TLC enumeration of layout moves over token sequences (Layout.tla, invariant CanonPreserved) + differential validation of every enumerated variant on the real parser, checker and VM",
                 text="Layout.tla describes a program as a token sequence and the layout moves as changes of layout attributes only (letter case of keywords and identifiers, width of a blank run incl. tabs, blank line, trailing comment, newline <-> colon between simple statements, CR LF / LF / CR); TLC checks that every move preserves the canonical token sequence and enumerates, per seed program, every single site x move (thorough: every pair of sites), the all-at-once variants and the three line-ending conventions. The driver materialises every variant and the real front end and VM must give the same parse tree up to positions/comments/letter case, the same verdict (accept, or reject with the same error family) and the same output and outcome as the base text. Seeds: programs of the C01/C03/C04/C05 families, every program text of the repository's tests, and rejected programs.",
                 note="Trusted: the site finder (lexer over the base text: string literals, comments, DATA payloads and numeric literals are not sites) - a wrongly eligible site shows as a difference, never as a miss; TLC. Tree comparison is textual (Debug) after erasing positions and comments."),
+    "C11": dict(level="model_checking", design="DESIGN.md section 5 C11",
+                technique="TLC enumeration and simulation of the fault-injection space (Diag.tla) + TLC validation of the real diagnostics against the position machine of Text.tla (Trace_Diag.tla, MC_Text.tla)",
+                text="Diag.tla is the space of cases: 42 injected faults (syntax, type mismatch, undefined label, wrong argument count, division by zero, subscript out of range, overflow, illegal function call; in simple statements and in IF / ELSEIF / FOR / WHILE / SELECT / CASE / LOOP UNTIL lines) x call depth (SUB / FUNCTION chains) x nesting (9 block kinds, one-line IF) x layout (blank lines, comment lines, colon-joined statements before/after, trailing comment, indentation, CR LF / LF / CR / mixed per line, noise before procedures) x a prior handled error. TLC enumerates a configuration exhaustively and samples deep histories (call depth <= 3, nesting <= 3). The renderer records only CHARACTER offsets of the offending statement and of the call sites; Trace_Diag.tla derives rows and columns from the characters with the position machine (MC_Text: machine = declarative definition on all texts over {x, CR, LF} up to length 7, run-compressed machine = machine) and judges the real parser / checker / VM diagnostic: stage, family, row of the statement, column inside it, rows of the active call sites innermost first.",
+                note="Trusted: the renderer's offsets (marks not on one row are rejected by the spec), the run-length compression of the text, TLC. A syntax error may point at the character that ends the statement. Columns of call sites are not judged (the property speaks of rows)."),
     "C15": dict(level="model_checking", design="DESIGN.md section 5 C15",
                 technique="TLC model checking of the REAL generated instruction lists with an abstract VM (VMAbs.tla) + TLA+ monitor (StackMon.tla) over the hook's depth vectors",
                 text="The instruction list the real generator produced for every accepted program (C01/C03/C04/C05/C06 families and every program text embedded in the repository's tests and fixtures) is exported and TLC explores its control-flow graph path by path with an abstract VM that keeps only stack depths, pending returns and pending GOSUBs: static well-formedness (targets resolved and in range, labels once, procedures closed under branches, main ends in Halt and procedures in PopRet, statement addresses ascending), no underflow, no depth beyond a bound (growth with the iteration count), clean state at the final Halt. Every (statement boundary, context, depths relative to the activation) TLC reaches - and every one the hook recorded in the real runs - goes through StackMon.tla: a boundary in a context has one depth vector and empty variable-path / by-ref / argument stacks.",
